@@ -1,25 +1,25 @@
 SPECIFICATION Spec
 CONSTANTS
   N = 2
-  MaxTime = 14
-  MaxSkew = 1
-  Budget = 1
+  MaxTime = 12
+  MaxSkew = 3
+  Budget = 0
   Variant = "design"
-  Faults <- NoFaults
-  MaxToggle = 0
+  Faults <- WriteFaults
+  MaxToggle = 1
   Removal = FALSE
   Remotes <- RemotesNone
   MaxWaits = 99
   HistMax = 0
   Emit = FALSE
   MaxAtt = 1
-  Crashes = TRUE
-  StartBy = 0
+  Crashes = FALSE
+  StartBy = 12
   StartFrom = 0
   HealOdds = 3
   ListLag = FALSE
-  FixSkew = FALSE
-  Edge = FALSE
+  FixSkew = TRUE
+  Edge = TRUE
 VIEW View
-INVARIANTS TypeOK InvExclusion InvHolderHasFile InvNotStale InvFresh
+INVARIANTS TypeOK InvExclusionMargin
 CHECK_DEADLOCK FALSE
